@@ -445,14 +445,24 @@ CHECK = Check(
     gen=["Routing", "RoutingSamples"],
     modules=["WzVerif.Props.C12"],
     streams=[RedirectStream()],
-    assumptions=[],
-    quick_budget=3000,
-    thorough_budget=20000,
+    assumptions=[
+        "model scope: the redirects MapAdapter.match raises on its own (slash, merged slashes, defaults, alias); redirect_to rules are application supplied and not modelled; host_matching maps are outside the theorems (BoundOK) and the stream",
+        "bound adapter is WSGI-shaped: script_name empty or starting with '/', non-empty server name, scheme http/https/ws/wss; a script_name without leading slash makes build() glue it onto the host (observed, outside the claim: not a valid SCRIPT_NAME)",
+        "urllib.parse.quote / quote_plus / urlencode / urlunsplit / unquote are hand-modelled and validated by the stream (every redirect URL is compared character for character); the safe= literals are the ones collected from the source by AST (quote_safe_sets_match_source)",
+        "a client following a redirect is modelled as urlsplit + unquote of the path + the raw query string (what a WSGI server hands to bind_to_environ); query strings containing '#' are outside the stream",
+        "alias rules are claimed only with a canonical (non-alias) rule of the same endpoint, arguments, methods and protocol (the documented meaning of alias=True); an alias without one redirects to itself forever - the `assert url != path` in make_alias_redirect_url compares the URL with 'domain|path' and can never fire (observed, application error)",
+        "oracle item 'final endpoint / arguments equal the original's' is asserted when the map does not itself leave the visited paths ambiguous (no path of the chain admitted by two rules): with overlapping rules what a canonical URL denotes is decided by rule priority (C03), not by the redirect",
+        "known finding F12a (C12 face of F03c): the slash / merged-slashes redirect is decided before to_python validates the value, so its target can be NotFound",
+        "slash_redirect_converges is proved in the partial form 'the target is directly admitted by the rule that asked for the slash; re-matching it is not None'; excluding a second slash redirect and defaults_redirect_converges are OPEN (see Props/C12.lean) and covered by the stream only",
+    ],
+    trusted_extra=["CPython urllib.parse (quote, urlencode, urlunsplit, urlsplit, unquote) for the modelled primitives (validated by the stream, not verified)"],
+    quick_budget=6000,
+    thorough_budget=40000,
 )
 
 MANIFEST = {
-    "level_text": "",
-    "level_note": "",
-    "technique": "Lean 4 proof + model/code correspondence",
+    "level_text": "Machine-checked Lean 4 theorems about the model of MapAdapter.match's redirects: every router redirect (slash, merged slashes, defaults, alias) is, character for character, bound scheme + '://' + get_host(None or the canonical rule's own subdomain) + script root + a path not starting with '/' + exactly the request's query (redirect_on_bound_host, slash_redirect_on_bound_host incl. the character set quote can emit, by decide over all 256 bytes); the target of a slash redirect is directly admitted by the rule that asked for it and the target of a merged-slashes redirect re-matches to the same rule without another redirect. The model is tied to the code by a differential stream that follows redirects to a fixpoint; the property oracle runs on the real code.",
+    "level_note": "Trusted: Lean kernel; extract.py; harness; CPython urllib.parse (modelled, stream-validated). Partial: exclusion of a second consecutive slash redirect and defaults_redirect_converges are OPEN (stream-covered). BoundOK excludes host_matching. Known finding F12a.",
+    "technique": "Lean 4 proof (list reasoning over the URL assembly, decide +kernel over all bytes for quote, reuse of the C03 matcher lemmas) + model/code correspondence",
     "design_ref": "DESIGN.md section 4, C12",
 }
